@@ -100,7 +100,7 @@ func tailEstablishes(hb *ana.Builder, x ana.Exit, o outcome, patterns []string) 
 	default:
 		return false
 	}
-	return stripObj(rt).Op == "call" && ana.LitMatches(lit, patterns...)
+	return ana.LitMatches(lit, patterns...)
 }
 
 func boundBuilderP(p *ana.Prog, call *ana.Term) *ana.Builder {
